@@ -318,3 +318,127 @@ def masked_autoregressive(ctx):
                     if isinstance(ldi, SumT):
                         ctx.oblige(f"C02/MaskedAutoregressive[{tag}]/ld_inv", ldi.t == -LDT(THETA(j, xv.arr, cc), sel(xv.arr, j)), rng + pil.cond, props, fn=Q + ".inverse_and_log_det", replay=rp,
                                    note="minus the forward log-det at the point the inverse returned")
+
+
+# ------------------------------------------------------------------------------------------------ constructors
+@family("structured/constructors", ["C08", "C13", "C09"])
+def structured_constructors(ctx):
+    """declared shapes and conditioner sizes of Coupling / Planar / BlockAutoregressiveNetwork, and their documented rejections"""
+    props = ["C08", "C13", "C09"]
+    dim, cd, ud, npar = z3.Ints("dim cond_dim untransformed_dim num_params")
+    # ---- Coupling
+    CQ = "flowjax.bijections.coupling"
+    for cname, cdv in (("unconditional", None), ("conditional", SV(cd))):
+        for tname, tshape, tcond in (("scalar_transformer", (), None), ("vector_transformer", (SV(z3.Int("k")),), None), ("conditional_transformer", (), ("c",))):
+            it = ctx.new_interp()
+            mlp_calls = []
+            it.lib.overrides["equinox.nn.MLP"] = lambda **kw: mlp_calls.append(kw) or ("mlp", len(mlp_calls))
+            it.global_overrides[CQ] = {"get_ravelled_pytree_constructor": lambda t, *a, **k: ("constructor", SV(npar))}
+            cls = it.repo_class(f"{CQ}.Coupling")
+
+            class Tr:
+                shape = tshape
+                cond_shape = tcond
+
+            fq = f"{CQ}.Coupling.__init__"
+            paths = it.explore(lambda: cls("key", transformer=Tr(), untransformed_dim=SV(ud), dim=SV(dim), cond_dim=cdv, nn_width=SV(z3.Int("w")), nn_depth=SV(z3.Int("d"))))
+            tag = f"{cname},{tname}"
+            valid_t = tname == "scalar_transformer"
+            for n_, p in enumerate(paths):
+                if p.outcome == "raise":
+                    ctx.oblige(f"C13/Coupling.__init__[{tag}]/post/raises_only_for_a_non_scalar_or_conditional_transformer#{n_}", (not valid_t) and p.value.exc == "ValueError", [], props, kind="struct", fn=fq, replay=dict(kind="simple", cls="Coupling", vars={}))
+                    continue
+                ctx.oblige(f"C13/Coupling.__init__[{tag}]/post/accepts_only_scalar_unconditional_transformers#{n_}", valid_t, [], props, kind="struct", fn=fq, replay=dict(kind="simple", cls="Coupling", vars={}))
+                o = p.value
+                shp = o.shape
+                okshape = isinstance(shp, tuple) and len(shp) == 1
+                ctx.oblige(f"C08/Coupling.__init__[{tag}]/post/shape_is_dim#{n_}", lift(shp[0]) == dim if okshape else z3.BoolVal(False), p.cond, props, fn=fq)
+                if cdv is None:
+                    ctx.oblige(f"C08/Coupling.__init__[{tag}]/post/unconditional#{n_}", o.cond_shape is None, [], props, kind="struct", fn=fq)
+                else:
+                    okc = isinstance(o.cond_shape, tuple) and len(o.cond_shape) == 1
+                    ctx.oblige(f"C08/Coupling.__init__[{tag}]/post/cond_shape_is_cond_dim#{n_}", lift(o.cond_shape[0]) == cd if okc else z3.BoolVal(False), p.cond, props, fn=fq)
+                okm = len(mlp_calls) >= 1
+                ctx.oblige(f"C09/Coupling.__init__[{tag}]/struct/conditioner_is_an_mlp#{n_}", okm, [], props, kind="applicability", fn=fq)
+                if okm:
+                    kw = mlp_calls[-1]
+                    want_in = ud + cd if cdv is not None else ud
+                    ctx.oblige(f"C09/Coupling.__init__[{tag}]/post/conditioner_reads_first_block_and_condition#{n_}", lift(kw.get("in_size")) == want_in, p.cond, props, fn=fq, replay=dict(kind="simple", cls="Coupling", vars={}))
+                    ctx.oblige(f"C09/Coupling.__init__[{tag}]/post/conditioner_emits_the_parameters_of_the_rest_block#{n_}", lift(kw.get("out_size")) == npar * (dim - ud), p.cond, props, fn=fq, replay=dict(kind="simple", cls="Coupling", vars={}))
+                    ctx.oblige(f"C09/Coupling.__init__[{tag}]/post/split_point_stored#{n_}", lift(o.untransformed_dim) == ud, p.cond, props, fn=fq)
+    # ---- Planar
+    PQ = "flowjax.bijections.planar"
+    for cname, cdv in (("unconditional", None), ("conditional", SV(cd))):
+        it = ctx.new_interp()
+        mlp_calls, normal_calls = [], []
+        it.lib.overrides["equinox.nn.MLP"] = lambda *a, **kw: mlp_calls.append((a, kw)) or ("mlp",)
+        it.lib.overrides["jax.random.normal"] = lambda key, shape=(), **k: normal_calls.append(shape) or SV(z3.Real("init_params"), True, {"shape": shape})
+        cls = it.repo_class(f"{PQ}.Planar")
+        fq = f"{PQ}.Planar.__init__"
+        paths = [p for p in it.explore(lambda: cls("key", dim=SV(dim), cond_dim=cdv)) if p.outcome == "return"]
+        ctx.oblige(f"C08/Planar.__init__[{cname}]/struct/constructs", len(paths) == 1, [], props, kind="applicability", fn=fq)
+        if len(paths) != 1:
+            continue
+        p = paths[0]
+        o = p.value
+        ctx.oblige(f"C08/Planar.__init__[{cname}]/post/shape_is_dim", lift(o.shape[0]) == dim if isinstance(o.shape, tuple) and len(o.shape) == 1 else z3.BoolVal(False), p.cond, props, fn=fq)
+        if cdv is None:
+            ctx.oblige(f"C08/Planar.__init__[{cname}]/post/unconditional", o.cond_shape is None and o.conditioner is None, [], props, kind="struct", fn=fq)
+        else:
+            # (how many parameters the conditioner emits and how get_planar slices them is an internal layout: the
+            #  planar/Planar family checks that all four methods slice them the same way)
+            okc = isinstance(o.cond_shape, tuple) and len(o.cond_shape) == 1
+            ctx.oblige(f"C08/Planar.__init__[{cname}]/post/cond_shape_is_cond_dim", lift(o.cond_shape[0]) == cd if okc else z3.BoolVal(False), p.cond, props, fn=fq)
+    # ---- BlockAutoregressiveNetwork
+    BQ = "flowjax.bijections.block_autoregressive_network"
+    bd = z3.Int("block_dim")
+    for depth in (0, 1, 2, 3):
+        for cname, cdv in (("unconditional", None), ("conditional", SV(cd))):
+            it = ctx.new_interp()
+            lin_calls, cond_lin = [], []
+
+            class Lin:
+                def __init__(self, n_blocks, block_shape):
+                    self.n_blocks, self.block_shape = n_blocks, block_shape
+                    self.out_features = block_shape[0] * n_blocks if not isinstance(block_shape[0], SV) else SV(lift(block_shape[0]) * lift(n_blocks))
+
+            def bal(key, *, n_blocks, block_shape):
+                l = Lin(n_blocks, block_shape)
+                lin_calls.append(l)
+                return (l, "log_jac_fn")
+
+            it.global_overrides[BQ] = {"block_autoregressive_linear": bal, "LeakyTanh": lambda *a, **k: ("LeakyTanh", a), "AutoregressiveBisectionInverter": lambda *a, **k: "default_inverter"}
+            it.lib.overrides["equinox.nn.Linear"] = lambda i, o, **k: cond_lin.append((i, o, k)) or ("cond_linear",)
+            it.lib.overrides["jax.random.split"] = lambda key, num=2: [f"{key}/{j}" for j in range(num if isinstance(num, int) else 2)]
+            cls = it.repo_class(f"{BQ}.BlockAutoregressiveNetwork")
+            fq = f"{BQ}.BlockAutoregressiveNetwork.__init__"
+            del lin_calls[:]
+            paths = [p for p in it.explore(lambda: cls("key", dim=SV(dim), cond_dim=cdv, depth=depth, block_dim=SV(bd))) if p.outcome == "return"]
+            tag = f"depth={depth},{cname}"
+            ctx.oblige(f"C08/BlockAutoregressiveNetwork.__init__[{tag}]/struct/constructs", len(paths) == 1, [], props, kind="applicability", fn=fq)
+            if len(paths) != 1:
+                continue
+            p = paths[0]
+            o = p.value
+            layers = list(o.layers)
+            ctx.oblige(f"C08/BlockAutoregressiveNetwork.__init__[{tag}]/post/depth_plus_one_linear_layers", len(layers) == depth + 1, [], props, kind="struct", fn=fq)
+            if len(layers) != depth + 1:
+                continue
+            # block shapes chain: (b,1), (b,b)..., (1,b)  (or (1,1) for depth 0): consecutive layers are composable, the
+            # network maps dim -> dim
+            bs = [l[0].block_shape for l in layers]
+            comp = [lift(bs[j][1]) == lift(bs[j - 1][0]) for j in range(1, len(bs))]
+            ends = [lift(bs[0][1]) == 1, lift(bs[-1][0]) == 1]
+            nb = [lift(l[0].n_blocks) == dim for l in layers]
+            ctx.oblige(f"C08/BlockAutoregressiveNetwork.__init__[{tag}]/post/block_shapes_compose_from_dim_to_dim", z3.And(*(comp + ends + nb)), p.cond + [bd >= 1], props, fn=fq, replay=dict(kind="simple", cls="BlockAutoregressiveNetwork", vars={}))
+            ctx.oblige(f"C08/BlockAutoregressiveNetwork.__init__[{tag}]/post/shape_is_dim", lift(o.shape[0]) == dim if isinstance(o.shape, tuple) and len(o.shape) == 1 else z3.BoolVal(False), p.cond, props, fn=fq)
+            if cdv is None:
+                ctx.oblige(f"C08/BlockAutoregressiveNetwork.__init__[{tag}]/post/unconditional", o.cond_shape is None and o.cond_linear is None, [], props, kind="struct", fn=fq)
+            else:
+                okc = len(cond_lin) >= 1
+                ctx.oblige(f"C08/BlockAutoregressiveNetwork.__init__[{tag}]/struct/condition_enters_through_a_linear_map", okc, [], props, kind="applicability", fn=fq)
+                if okc:
+                    i_, o_, _k = cond_lin[-1]
+                    ctx.oblige(f"C08/BlockAutoregressiveNetwork.__init__[{tag}]/post/condition_map_sizes", z3.And(lift(i_) == cd, lift(o_) == lift(bs[0][0]) * dim), p.cond, props, fn=fq, replay=dict(kind="simple", cls="BlockAutoregressiveNetwork", vars={}),
+                               note="maps the condition to the width of the first layer's output (where it is added)")
+                ctx.oblige(f"C08/BlockAutoregressiveNetwork.__init__[{tag}]/post/cond_shape_is_cond_dim", lift(o.cond_shape[0]) == cd if isinstance(o.cond_shape, tuple) and len(o.cond_shape) == 1 else z3.BoolVal(False), p.cond, props, fn=fq)
